@@ -48,7 +48,7 @@ inductive Policy
   | bulkhead (id : Nat)
   | limiter (id : Nat)
   | fallback (k : FbKind) (handle : List Cond)
-  | cache (id : Nat) (key : String) (cacheIf : Option Nat)
+  | cache (id : Nat) (key : String) (cacheIf : List Nat)
   | timeout
   | hedge (maxHedges : Nat) (cancelOn : List Cond)
 deriving Repr
@@ -296,10 +296,9 @@ def hedgeLoop (pos maxHedges : Nat) (cancelOn : List Cond) (inner : Layer) : Nat
 
 def cacheKeyOf (r : Run) (key : String) : String := match r.ctxKey with | some ck => ck | none => key
 
-def shouldCache (cacheIf : Option Nat) (res : PR) : Bool :=
-  match cacheIf with
-  | none => res.err.isNone
-  | some p => predicate p res.outcome
+/-- `(len(cacheConditions) == 0 && err == nil) || AppliesToAny(cacheConditions, result, err)`: every `CacheIf` call adds a condition -/
+def shouldCache (cacheIf : List Nat) (res : PR) : Bool :=
+  (cacheIf.isEmpty && res.err.isNone) || cacheIf.any (fun p => predicate p res.outcome)
 
 def applyPolicy (fuel pos : Nat) : Policy → Layer → Layer
   | .retry m rl h a, inner => retryLoop pos m rl h a inner fuel
